@@ -293,4 +293,38 @@ func TestC14Known(t *testing.T) {
 	}
 	probe("plan-reuses-operator", 0, 3, "plan names an operator address that already has a validator with another consensus key")
 	probe("plan-reuses-key", 3, 1, "plan names a consensus key that is already used by another operator")
+	// the same finding with a key whose other operator is not in the consensus engine's set yet (added by
+	// the authority earlier in the plan's block). The recorded failure is the lost key index; any other way
+	// of failing in this situation (block processing that stops, ...) is a different violation and is
+	// reported under a class of its own, which KNOWN_FINDINGS.txt does not list.
+	func() {
+		w, err := newValWorld(2, 5, 0)
+		if err != nil {
+			t.Fatal(err)
+		}
+		l2 := w.l2
+		if err := w.beginBlock(); err != nil {
+			t.Fatal(err)
+		}
+		h := uint64(l2.Ctx.BlockHeight())
+		if err := l2.K.RegisterExecutorChangePlan(1, h, w.ops[3].String(), "plan", w.pubKeyJSON(2), "", []string{w.executors[0].Str}); err != nil {
+			t.Fatal(err)
+		}
+		if r, err := w.add(2, 2); err != nil || !r.OK() {
+			t.Fatalf("probe: adding (op2,key2): %v %v", err, r.Err)
+		}
+		p := c14Plan{height: h, opI: 3, keyI: 2, executors: []string{w.executors[0].Str}}
+		if got := w.planClass(p); got != "plan-reuses-key" {
+			t.Fatalf("probe classified as %s", got)
+		}
+		if err := w.endBlockWithPlan(p); err != nil {
+			msg := truncStr(strings.ReplaceAll(err.Error(), "\n", " "), 260)
+			class := "plan-reuses-key"
+			if !strings.Contains(msg, "consensus-key index") {
+				class = "plan-reuses-key/fails-differently"
+			}
+			fmt.Printf("KNOWN-FINDING-CANDIDATE: property=C14 class=%s plan names a consensus key that the authority gave to another operator earlier in the same block: %s\n", class, msg)
+			rec.KnownFinding(class + " (key of a validator added in the plan's block): " + msg)
+		}
+	}()
 }
